@@ -77,6 +77,14 @@ theorem opActs_noCancel (cfg : Cfg) (x : Sim) (op : Op) (h : op ≠ .drain) : Ac
     simp only [opActs, List.mem_append, List.mem_cons, not_or]
     exact ⟨cancel_not_mem_repeat _ hl _, by simp, cancel_not_mem_repeat _ hw _⟩
   | advance ms => simp [opActs]
+  | arriveTick p =>
+    have hs' := cancel_not_mem_settle x.hold (x.s.n + 1)
+    have hl' : Act.cancel ∉ (Act.loopStep 0 :: settleActs x.hold (x.s.n + 1)) := by
+      intro e; rcases List.mem_cons.1 e with e | e
+      · cases e
+      · exact hs' e
+    simp only [opActs, List.mem_append, not_or]
+    exact ⟨⟨⟨by simp, cancel_not_mem_repeat _ hw _⟩, by simp⟩, cancel_not_mem_repeat _ hl' _⟩
 
 theorem schedule_noCancel (cfg : Cfg) (ops : List Op) (x : Sim) (h : Op.drain ∉ ops) :
     noCancel (schedule cfg x ops) := by
